@@ -32,7 +32,13 @@ def gen_seq(rng):
                  speed_pos=rng.choice([0.5, 3.0]), samplesize=(25, 10))
     calls = [('start', [rng.choice([-2.0, 0.0, 0.125]), rng.choice([0.0, 0.25, -1.5]), rng.choice([0.035, 0.0, -0.1])])]
     for _ in range(rng.randint(1, 6)):
-        dy = rng.choice([0.03, -0.03, 0.0365, -0.0365, 0.1, -0.2, 0.0, 1.5])
+        if rng.random() < 0.15:
+            # the defaults are public attributes: they may be re-assigned between two segments of one waveguide
+            attr = rng.choice(['radius', 'radius', 'speed', 'int_length', 'arm_length', 'dz_bridge'])
+            val = {'radius': [15.0, 30.0, 7.5], 'speed': [5.0, 12.5], 'int_length': [0.0, 0.25], 'arm_length': [0.0, 0.5],
+                   'dz_bridge': [0.007, -0.004]}[attr]
+            calls.append(('set', attr, rng.choice(val)))
+        dy = rng.choice([0.03, -0.03, 0.0365, -0.0365, 0.1, -0.2, 0.0, 1.5]) if rng.random() < 0.7 else rng.choice([0.03, -0.03])
         r = rng.choice([None, None, 20.0, 3.0])
         f = rng.choice([None, None, 10.0, 33.0])
         s = rng.choice([1, 1, 1, 0])
@@ -62,10 +68,35 @@ def gen_seq(rng):
     return param, calls
 
 
+def directed_seqs(rng):
+    """the same segment before and after a default was re-assigned (a value remembered from the first call must not leak)"""
+    base = dict(scan=1, speed=20.0, radius=15.0, pitch=0.08, int_dist=0.007, int_length=0.5, arm_length=0.75, dz_bridge=0.007,
+                cmd_rate_max=100, speed_closed=5, speed_pos=0.5, samplesize=(25, 10))
+    segs = {
+        'arc_bend': lambda dy: ('arc_bend', dy, None, 1, None),
+        'arc_coupler': lambda dy: ('arc_coupler', dy, None, None, 1, None),
+        'arc_mzi': lambda dy: ('arc_mzi', dy, None, None, None, 1, None),
+        'sin_bend': lambda dy: ('sin_bend', dy, None, None, None, 1, None),
+        'sin_bridge': lambda dy: ('sin_bridge', dy, None, None, None, 1, None),
+        'sin_coupler': lambda dy: ('sin_coupler', dy, None, None, 1, None),
+        'sin_mzi': lambda dy: ('sin_mzi', dy, None, None, None, 1, None),
+        'spline': lambda dy: ('spline', dy, 0.0, None, None, 1, None),
+    }
+    sets = [('radius', 30.0), ('radius', 7.5), ('speed', 5.0), ('int_length', 0.0), ('arm_length', 0.0), ('dz_bridge', -0.004)]
+    for name, mk in segs.items():
+        for attr, val in sets:
+            if rng.random() < 0.5:
+                continue
+            dy = rng.choice([0.03, -0.0365])
+            yield dict(base), [('start', [0.0, 0.0, 0.035]), mk(dy), ('set', attr, val), mk(rng.choice([dy, -dy])), ('end',)]
+
+
 def apply(wg, c):
     k = c[0]
     if k == 'start':
         wg.start(list(c[1]))
+    elif k == 'set':
+        setattr(wg, c[1], c[2])
     elif k == 'linear':
         wg.linear(list(c[1]), mode=c[2], shutter=c[3], speed=c[4])
     elif k == 'arc_bend':
@@ -139,13 +170,16 @@ def run(rep: common.Report, tier: str, seed: int):
     cases, lits = [], []
     hist = {'ops': {}, 'rejected': {}, 'blocks': 0}
     nseq = 0
-    for _ in range(150 if quick else 2500):
-        param, calls = gen_seq(rng)
+    seqs = list(directed_seqs(rng)) + [gen_seq(rng) for _ in range(150 if quick else 2500)]
+    for param, calls in seqs:
         with pgm.quiet():
             wg = Waveguide(**param)
         nseq += 1
         curved = 0
+        cur = dict(param)          # the attribute values in force (re-assigned by 'set')
         for c in calls:
+            if c[0] == 'set':
+                cur[c[1]] = c[2]
             n0 = wg._x.size
             try:
                 with pgm.quiet():
@@ -154,7 +188,7 @@ def run(rep: common.Report, tier: str, seed: int):
                 # |dy| > 4r (arccos undefined) and similar documented rejections: nothing may have been appended
                 hist['rejected'][c[0]] = hist['rejected'].get(c[0], 0) + 1
                 continue
-            if c[0] == 'start':
+            if c[0] in ('start', 'set'):
                 continue
             blk = [(wg._x[i], wg._y[i], wg._z[i], wg._f[i], wg._s[i]) for i in range(n0, wg._x.size)]
             if len(blk) > 1200:
@@ -162,7 +196,7 @@ def run(rep: common.Report, tier: str, seed: int):
             first = (wg._x[0], wg._y[0], wg._z[0], wg._f[0], wg._s[0])
             last = (wg._x[n0 - 1], wg._y[n0 - 1], wg._z[n0 - 1], wg._f[n0 - 1], wg._s[n0 - 1])
             lits.append('{| k_first := %s; k_last := %s; k_seg := %s; k_blk := %s |}' % (
-                lpt(*first), lpt(*last), seg_lit(param, c), clist(lpt(*p) for p in blk)))
+                lpt(*first), lpt(*last), seg_lit(cur, c), clist(lpt(*p) for p in blk)))
             cases.append({'param': param, 'prefix': calls[:calls.index(c)], 'call': c})
             hist['ops'][c[0]] = hist['ops'].get(c[0], 0) + 1
             curved += c[0] not in ('linear', 'end')
